@@ -349,6 +349,12 @@ class NPFacade:
             ad = ad._real_abs()
         return SBool(lambda: bool(ad <= bound))
 
+    def allclose(s, a, b, rtol=1e-05, atol=1e-08, equal_nan=False):
+        if not (_has_sym(a) or _has_sym(b)): return real_np.allclose(a, b, rtol=rtol, atol=atol, equal_nan=equal_nan)
+        r = s.isclose(a, b, rtol, atol, equal_nan)
+        if isinstance(r, real_np.ndarray): return bool(r.all())
+        return bool(r)
+
     def angle(s, z, deg=False):
         if not isinstance(z, SC): return real_np.angle(z, deg=deg)
         th = core.polar(z)[1]
